@@ -392,7 +392,7 @@ def consistent_flags(rng, tree, custom_names, noise=0.1):
 
 class C11(Prop):
     id = 'C11'
-    also = ['C11S']   # scheduler-level half (pool membership after finish), its own model run
+    also = ['C11S', 'C11R']   # scheduler-level half (pool membership after finish), its own model run
     props_modules = ['CylcModel.Props.C11']
     theorems = [
         'CylcModel.C11.default_expr_sem',
